@@ -147,11 +147,12 @@ class FieldType:
 
 
 def _hashable(value):
-    """Return packed ``value`` with lists and dicts converted to tuples (at any depth) so it can be hashed."""
+    """Return packed ``value`` with lists converted to tuples and dicts to frozensets (at any depth) so it can be hashed."""
     if isinstance(value, (list, tuple)):
         return tuple(_hashable(v) for v in value)
     if isinstance(value, dict):
-        return tuple((k, _hashable(v)) for k, v in value.items())
+        # dicts are equal regardless of insertion order, so their hash must not depend on it either
+        return frozenset((k, _hashable(v)) for k, v in value.items())
     return value
 
 
